@@ -182,6 +182,109 @@ theorem batch_any_order_good (S : Scripts) (rh : HookFn) (hrh : HookOK rh) (w : 
     destructed user 1 and an accept took a new record -/
 example : ∃ evs : List IoEv, evs.length = 3 ∧ evs.Perm [.hup 1, .accept 3, .eof 2] := ⟨[.eof 2, .accept 3, .hup 1], rfl, by decide⟩
 
+/-! ## the rotating start slot of get_user_command() -/
+
+/-- **the start slot moves past the user that is served** - also when more of his commands are buffered, so a user whose
+    commands keep failing (the longjmp to backend() restarts the iteration) cannot keep the search at his own slot: the
+    next iteration starts BEHIND him (the seeded change C09-5 broke exactly this; the oracle's `isolation` clause is the
+    observable consequence).  `i` is the slot the served record sits in. -/
+theorem cursor_moves_past_served_user : ∀ (n : Nat) (w : W) (c : Conn), (scanUsers n w).2 = some c →
+    ∃ l i, w.users = some l ∧ l[i]? = some (some c) ∧
+      (scanUsers n w).1.nextUser = (if i = 0 then l.length - 1 else i - 1) := by
+  intro n
+  induction n with
+  | zero => intro w c h; simp [scanUsers] at h
+  | succ n ih =>
+    intro w c h
+    unfold scanUsers at h ⊢
+    cases hu : w.users with
+    | none => rw [hu] at h; simp at h
+    | some l =>
+      rw [hu] at h
+      simp only [] at h ⊢
+      cases hs : l[w.nextUser]? with
+      | none => rw [hs] at h; simp [crash] at h
+      | some s =>
+        rw [hs] at h
+        simp only [] at h ⊢
+        cases s with
+        | none =>
+          simp only [] at h ⊢
+          obtain ⟨l', i, hl', hi, hn⟩ := ih _ c h
+          have : l' = l := by
+            have e : ({ w with nextUser := if w.nextUser = 0 then l.length - 1 else w.nextUser - 1 } : W).users = some l := hu
+            rw [e] at hl'; exact (Option.some.inj hl').symm
+          rw [this] at hi hn
+          exact ⟨l, i, rfl, hi, hn⟩
+        | some d =>
+          simp only [] at h ⊢
+          by_cases hc : (!d.cmds.isEmpty && d.turn) = true
+          · rw [if_pos hc] at h ⊢
+            simp only [Option.some.injEq] at h
+            refine ⟨l, w.nextUser, rfl, by rw [hs, h], ?_⟩
+            show (if (mapConn w d.id _).nextUser = 0 then l.length - 1 else (mapConn w d.id _).nextUser - 1) = _
+            rfl
+          · rw [if_neg hc] at h ⊢
+            obtain ⟨l', i, hl', hi, hn⟩ := ih _ c h
+            have : l' = l := by
+              have e : ({ w with nextUser := if w.nextUser = 0 then l.length - 1 else w.nextUser - 1 } : W).users = some l := hu
+              rw [e] at hl'; exact (Option.some.inj hl').symm
+            rw [this] at hi hn
+            exact ⟨l, i, rfl, hi, hn⟩
+
+/-! ## snoop on the input path -/
+
+/-- **the whole input path of a snooped user** - CR LF echo with the snooper's receive_snoop() after every line, the
+    re-validation, buffering, the raw input shown to the snooper last - keeps the invariant whatever the snooper's
+    callback does (destructs / disconnects the typing user, itself, anybody; raises; snoops somebody else), for every
+    script oracle, every packet and every nesting depth -/
+theorem snoop_input_path_safe (S : Scripts) (fuel : Nat) (w : W) (id : Nat) (telnet : Bool) (text : String)
+    (i : Inv w) : Inv (userData (runHook S fuel) w id telnet text) :=
+  (userData_step (runHook S fuel) (runHook_ok S fuel) w id telnet text i).1
+
+/-- copy_chars() gives up when the snooper removed the user during the echo: nothing of the packet is buffered and
+    nothing is done with the record any more -/
+theorem packet_dropped_when_user_gone (rh : HookFn) (w : W) (id : Nat) (text : String) (c : Conn)
+    (hc : findConn w id = some c)
+    (hg : (echoLoop rh ((splitLines c.part text).1.filter (· ≠ "")).length w id c.ob).inter c.ob ≠ some id) :
+    userData rh w id true text = echoLoop rh ((splitLines c.part text).1.filter (· ≠ "")).length w id c.ob := by
+  unfold userData
+  rw [hc]
+  simp only [if_true]
+  rw [if_pos hg]
+
+/-- remove_interactive(): once a user's record is gone nobody is recorded as snooped by that user any more -/
+theorem removed_snooper_leaves_no_link (w : W) (o : Oid) (id : Nat) (c : Conn)
+    (h : findConn (clearSnoopers w o) id = some c) : c.snoopBy ≠ some o := by
+  unfold clearSnoopers mapAll at h
+  have hf : findConn { w with users := w.users.map (fun l => l.map (fun s => s.map (snoopUnlink o))) } id =
+      (findConn w id).map (snoopUnlink o) := by
+    unfold findConn slots
+    cases hu : w.users with
+    | none => rfl
+    | some l => exact findIn_mapAll (snoopUnlink o) (snoopUnlink_id o) l id
+  rw [hf] at h
+  cases hc : findConn w id with
+  | none => rw [hc] at h; simp at h
+  | some d =>
+    rw [hc] at h
+    simp only [Option.map_some, Option.some.injEq] at h
+    rw [← h]
+    unfold snoopUnlink
+    split
+    · simp
+    · assumption
+
+/-- new_set_snoop(): a snoop that would close a loop is refused, nothing changes -/
+theorem snoop_loop_refused (w : W) (me you : Oid) (h : snoopLoop (slots w).length w me you = true) :
+    setSnoop w me you = w := by
+  unfold setSnoop
+  split
+  · rfl
+  · split
+    · simp [h]
+    · rfl
+
 /-! ## input_to() and the object sweep (reset / clean_up) -/
 
 /-- call_function_interactive(): when the callback starts, `ip->input_to` is already cleared - the callback may arm a
